@@ -288,6 +288,33 @@ func runRegLockstep(c *Ctx, rule string) {
 	}
 	c.role("table breaker", fnKey(ra.breaker))
 	c.role("queue poppers", fnNames(fnSetToList(ra.poppers)))
+	// ---- total-owner: the player total changes with registrations (+len) and eliminations (-out)
+	// only; the rules below pin those two. Anything else that stores it (a "resync" from the table
+	// sheets, say) forgets the players who are on their way between a table and the queue
+	{
+		ix := p.Index()
+		add := p.Func(regPkg, "regulator", "AddPlayers")
+		sync := p.Func(regPkg, "regulator", "SyncState")
+		var bad []string
+		n := 0
+		for _, w := range ix.Writers("regulator.regulator.playerCount") {
+			n++
+			if w == add || w == sync || (w.Signature.Recv() == nil && strings.HasPrefix(w.Name(), "New")) {
+				continue
+			}
+			// a package-private helper of one of the two
+			okH := false
+			for _, cl := range ix.Callers(w) {
+				if (cl == add || cl == sync) && privateHelper(cl, w) {
+					okH = true
+				}
+			}
+			if !okH {
+				bad = append(bad, fnKey(w)+" stores the player total")
+			}
+		}
+		c.check(len(bad) == 0 && n >= 2, "counter-lockstep", "regulator.playerCount#owner", "-", "the player total is stored by registration and by sync only", "the player total is recomputed elsewhere", uniq(bad, 2)...)
+	}
 	c.role("enqueuer", fnKey(ra.enqueuer))
 	c.role("dispatcher", fnKey(ra.dispatcher))
 	c.role("table opener", fnKey(ra.opener))
@@ -368,6 +395,9 @@ func runRegLockstep(c *Ctx, rule string) {
 			switch {
 			case len(brk) == 1:
 				kinds["break"]++
+				if len(req) > 0 {
+					bad = append(bad, "players are popped from the waiting queue on a path that breaks the table and does not hand them over: they are in no place")
+				}
 				if brk[0].Args[1].String() != tid {
 					bad = append(bad, "the table broken is not the syncing table")
 				}
